@@ -103,7 +103,15 @@ def cmd_run(argv):
     os.makedirs(replay_dir, exist_ok=True)
     sha = tree_sha()
 
+    # soft wall-clock budget (thorough tier): stop taking new sessions, report what was covered
+    soft = float(os.environ.get("SIMKIT_SOFT_BUDGET", "0") or 0)
+    t_start = float(os.environ.get("SIMKIT_T0", "0") or 0) or t0
+    agg["planned"] = len(range(offset, count, stride))
+    agg["truncated"] = False
     for i in range(offset, count, stride):
+        if soft and time.time() - t_start > soft:
+            agg["truncated"] = True
+            break
         seed = start + i
         try:
             plan = world.gen_plan(seed, tier, config)
